@@ -120,6 +120,18 @@ class FuncRef:
         return '<func %s>' % self.fullname
 
 
+class ClassRef:
+    def __init__(self, mod, node):
+        self.mod, self.node = mod, node
+
+    @property
+    def fullname(self):
+        return 'class:%s.%s' % (self.mod.name, self.node.name)
+
+    def __repr__(self):
+        return self.fullname
+
+
 class Closure:
     def __init__(self, node, env, mod, name='<lambda>'):
         self.node, self.env, self.mod, self.name = node, env, mod, name
@@ -410,7 +422,7 @@ class Executor:
             if callable(pol):
                 return pol(self, f, args, kwargs)
             return self.abstract_call(f, args, kwargs)
-        if isinstance(f, Tm):
+        if isinstance(f, (Tm, ClassRef)):
             return self.abstract_call(f, args, kwargs)
         if isinstance(f, type) and f in (int, float, str, bool, list, tuple, dict):
             return self.builtins[f.__name__].fn(*args, **kwargs)
@@ -478,7 +490,7 @@ class Executor:
             r = self.abstract_hook(self, f, args, kwargs, self.ctx)
             if r is not NotImplemented:
                 return r
-        name = f.fullname if isinstance(f, FuncRef) else vrepr(f)
+        name = f.fullname if isinstance(f, (FuncRef, ClassRef)) else vrepr(f)
         if isinstance(f, FuncRef):
             try:
                 bound = self.bind(f.node, f.mod, args, kwargs, Env(None, f.mod))
@@ -800,7 +812,7 @@ class Executor:
             return self.ctx.decide(v != 0)
         if isinstance(v, Tm):
             return self.ctx.decide(named_bool('truth(%s)' % vrepr(v)))
-        if isinstance(v, (Closure, FuncRef, PyFn, ModuleRef, VObj)):
+        if isinstance(v, (Closure, FuncRef, PyFn, ModuleRef, VObj, ClassRef)):
             return True
         raise Unsupported('truth of %s' % vrepr(v))
 
@@ -1133,6 +1145,11 @@ class Executor:
             if name in obj.attrs:
                 return obj.attrs[name]
             raise PyRaise('AttributeError', '%s.%s' % (obj.name, name))
+        if isinstance(obj, ClassRef):
+            q = obj.node.name + '.' + name
+            if q in obj.mod.funcs:
+                return FuncRef(obj.mod, obj.mod.funcs[q], q)
+            return Tm('attr:' + name, Tm(obj.fullname))
         if isinstance(obj, PyFn):
             if name == '__name__':
                 return obj.name
@@ -1379,7 +1396,7 @@ class Executor:
         if name in mi.funcs:
             return FuncRef(mi, mi.funcs[name], name)
         if name in mi.classes:
-            return Tm('class:%s.%s' % (mi.name, name))
+            return ClassRef(mi, mi.classes[name])
         if name in mi.assigns:
             v = self.eval(mi.assigns[name], Env(None, mi), mi)
             return v
@@ -1440,6 +1457,8 @@ class Executor:
                 return Tm('float:inf')
             if name in ('ma', 'random', 'linalg'):
                 return ModuleRef('numpy.' + name)
+            if name in ('float64', 'float32', 'double', 'float_'):
+                return PyFn(lambda x: x if is_scalar(exact(x)) else Tm('call:numpy.float64', x), 'numpy.' + name)
             if name == 'isscalar':
                 return PyFn(lambda x: is_scalar(x), 'numpy.isscalar')
             if name == 'asarray' or name == 'array' or name == 'atleast_1d':
@@ -1810,10 +1829,14 @@ def _dotted(e):
 
 
 # ---------------------------------------------------------------- term equality (program algebra)
-def term_eq(a, b, goals, path='', fresh=None):
+def term_eq(a, b, goals, path='', fresh=None, tm_hook=None):
     """Structural equality of two values modulo scalar arithmetic.  Scalar leaf equalities are appended
     to `goals` as (z3 Bool, where).  Returns None if structurally compatible, else a mismatch string."""
     a, b = exact(a), exact(b)
+    _callable = (Closure, FuncRef, PyFn)
+    if fresh is not None and (isinstance(a, _callable) and (is_scalar(b) or isinstance(b, _callable)) or
+                              isinstance(b, _callable) and is_scalar(a)) and a is not b:
+        return fresh(a, b, goals, path)
     if is_scalar(a) and is_scalar(b):
         if is_num(a) and is_num(b) or isinstance(a, bool) and isinstance(b, bool):
             return None if a == b else '%s: %s != %s' % (path, a, b)
@@ -1830,7 +1853,7 @@ def term_eq(a, b, goals, path='', fresh=None):
         if len(ai) != len(bi):
             return '%s: length %d != %d' % (path, len(ai), len(bi))
         for i, (x, y) in enumerate(zip(ai, bi)):
-            r = term_eq(x, y, goals, '%s[%d]' % (path, i), fresh)
+            r = term_eq(x, y, goals, '%s[%d]' % (path, i), fresh, tm_hook)
             if r:
                 return r
         return None
@@ -1838,17 +1861,21 @@ def term_eq(a, b, goals, path='', fresh=None):
         if set(a.d) != set(b.d):
             return '%s: dict keys differ' % path
         for k in a.d:
-            r = term_eq(a.d[k], b.d[k], goals, '%s[%r]' % (path, k), fresh)
+            r = term_eq(a.d[k], b.d[k], goals, '%s[%r]' % (path, k), fresh, tm_hook)
             if r:
                 return r
         return None
     if isinstance(a, Tm) and isinstance(b, Tm):
         if a is b:
             return None
+        if tm_hook is not None:
+            r = tm_hook(a, b, goals, path, fresh)
+            if r is not NotImplemented:
+                return r
         if a.op != b.op or len(a.args) != len(b.args):
             return '%s: %s vs %s' % (path, _short(a), _short(b))
         for i, (x, y) in enumerate(zip(a.args, b.args)):
-            r = term_eq(x, y, goals, '%s/%s.%d' % (path, a.op.replace('call:', ''), i), fresh)
+            r = term_eq(x, y, goals, '%s/%s.%d' % (path, a.op.replace('call:', ''), i), fresh, tm_hook)
             if r:
                 return r
         ka = {k: v for k, v in a.attrs.items() if not k.startswith('__')}
@@ -1856,7 +1883,7 @@ def term_eq(a, b, goals, path='', fresh=None):
         if set(ka) != set(kb):
             return '%s: attributes set differ %s vs %s' % (path, sorted(ka), sorted(kb))
         for k in ka:
-            r = term_eq(ka[k], kb[k], goals, '%s.%s' % (path, k), fresh)
+            r = term_eq(ka[k], kb[k], goals, '%s.%s' % (path, k), fresh, tm_hook)
             if r:
                 return r
         return None
@@ -1875,7 +1902,7 @@ def term_eq(a, b, goals, path='', fresh=None):
     if isinstance(a, ModuleRef) and isinstance(b, ModuleRef) and a.name == b.name:
         return None
     if isinstance(a, slice) and isinstance(b, slice):
-        return term_eq((a.start, a.stop, a.step), (b.start, b.stop, b.step), goals, path + ':slice', fresh)
+        return term_eq((a.start, a.stop, a.step), (b.start, b.stop, b.step), goals, path + ':slice', fresh, tm_hook)
     return '%s: %s vs %s' % (path, _short(a), _short(b))
 
 
